@@ -200,7 +200,7 @@ func Check(p *Program, opts CheckOpts) *Report {
 			if len(props) == 0 {
 				props = spec.SafetyProps
 			}
-			if len(props) == 0 && o.Kind != "safety" && o.Kind != "typeinv" {
+			if len(props) == 0 && o.Kind != "safety" {
 				props = spec.HomeProps
 			}
 			if opts.Prop != "" && opts.Prop != "all" && !hasProp(props, opts.Prop) {
